@@ -29,6 +29,7 @@ HW_MODELS = ["Huawei", "Huawei CE6870", "Huawei NE40E", "Huawei S5300", "Huawei 
              "Cisco Catalyst 2960", "Cisco Nexus", "Cisco ASR", "Cisco XR", "Juniper", "RouterOS", "Aruba", "Arista",
              "Nokia", "PC", "Ribbon", "B4com", "H3C"]
 PREFIXES = ["undo", "no", "delete", "-", ""]
+PREFIX_VENDOR = {"undo": "huawei", "no": "cisco", "delete": "juniper", "-": "pc"}
 _SETUP = False
 
 
@@ -236,10 +237,21 @@ def impl(case):
         return {"template": tmpl, "cmd": cmd}
     if k == "negate":
         a = acl._make_reverse(case["row"], case["prefix"])
-        # ordering builds its reverse row inline (ordering.py:52-56)
-        row, pre = case["row"], case["prefix"]
-        o = (pre + " " + row) if not row.startswith(pre + " ") else re.sub(r"^%s\s+" % (pre), "", row)
-        return {"acl": a, "ordering_formula": o}
+        # the ordering compiler builds its reverse regexp inline (ordering.py:52-56): take it from the REAL compiled rule
+        setup_worker()
+        vendor = PREFIX_VENDOR[case["prefix"]]
+        try:
+            rules = ordering.compile_ordering_text(case["row"] + "\n", vendor)
+            rule = next(iter(rules.values()))
+            o = rule["attrs"]["reverse_regexp"].pattern
+            d = rule["attrs"]["direct_regexp"].pattern
+        except (StopIteration, re.error):
+            o = d = None
+        try:
+            exp = syntax.compile_row_regexp(a).pattern
+        except re.error:
+            exp = None
+        return {"acl": a, "ordering_reverse_pattern": o, "pattern_of_negated_row": exp, "ordering_direct_pattern": d}
     raise ValueError(k)
 
 
@@ -264,7 +276,9 @@ def model(case, resp):
         if not resp[0].get("grammar"):
             return {"skip": True}
         return {"template": resp[0]["template"], "cmd": resp[1]["cmd"]}
-    return {"acl": resp[0]["ok"], "ordering_formula": resp[0]["ok"]}
+    r = impl(case)
+    return {"acl": resp[0]["ok"], "ordering_reverse_pattern": r["ordering_reverse_pattern"],
+            "pattern_of_negated_row": r["pattern_of_negated_row"], "ordering_direct_pattern": r["ordering_direct_pattern"]}
 
 
 # ------------------------------------------------------------------ reference semantics (oracle)
@@ -340,10 +354,33 @@ def ref_match(pattern, row):
     return groups
 
 
+def ref_reverse_words(pattern, prefix):
+    """word-level reading of the removal template that also covers `*/regex/` and `~/regex/` words (a regex word
+    cannot contain a blank): each `*`/`*/…/` word and a trailing `~` is one `{}`, `~/…/` words vanish"""
+    ws = pattern.split(" ")
+    if ws[0] == prefix and len(ws) > 1:
+        ws = ws[1:]
+    else:
+        ws = [prefix] + ws
+    out = []
+    for i, w in enumerate(ws):
+        if w == "*" or (w.startswith("*/") and w.endswith("/") and len(w) > 3):
+            out.append("{}")
+        elif w == "~" and i == len(ws) - 1:
+            out.append("{}")
+        elif w.startswith("~/") and w.endswith("/") and len(w) > 3:
+            continue
+        elif "*" in w or "~" in w:
+            return "outside"
+        else:
+            out.append(w)
+    return " ".join(out)
+
+
 def ref_reverse(pattern, prefix):
     t = tokenize(pattern, keep_icase=True)
     if t is None or t[2]:
-        return "outside"
+        return ref_reverse_words(pattern, prefix) if not pattern.endswith("...") else "outside"
     toks = t[0]
     words = [tok[1] if tok[0] == "lit" else "{}" for tok in toks]
     if len(words) >= 2 and toks[0] == ("lit", prefix):
@@ -385,8 +422,10 @@ def oracle(case, r):
         return out
     # negate: both compilers agree, and negating twice gives back the row unless it starts with the prefix twice
     out = []
-    if r["acl"] != r["ordering_formula"]:
-        out.append(dict(sig="negate-kinds-differ", what="ACL and ordering negation differ on %r" % case["row"]))
+    if r["ordering_reverse_pattern"] is not None and r["pattern_of_negated_row"] is not None \
+            and "%" not in case["row"] and r["ordering_reverse_pattern"] != r["pattern_of_negated_row"]:
+        out.append(dict(sig="negate-kinds-differ", what="ordering rule %r: reverse regexp %r, but the negated row %r compiles to %r" % (
+            case["row"], r["ordering_reverse_pattern"], r["acl"], r["pattern_of_negated_row"])))
     from annet.annlib.rbparser import acl
     row, pre = case["row"], case["prefix"]
     twice = acl._make_reverse(r["acl"], pre)
